@@ -308,7 +308,7 @@ fn stream_parse(driver: &Driver, ctx: &Ctx, seed: u64, n: u64, outside: bool) ->
 // ---------------------------------------------------------------------------------------------------
 // c08.kw, c08.spec: every keyword of the table
 
-const EXTRA_KEYWORDS: &[&str] = &["Do0", "foo", "BXX", "R", "obj", "T", "re*"];
+const EXTRA_KEYWORDS: &[&str] = &["Do0", "foo", "BXX", "Rx", "obj", "T", "re*"];
 
 /// a few statements that establish a current point / a subpath start / nothing, placed before the keyword
 fn prefixes() -> Vec<(Vec<Stmt>, PathSt)> {
